@@ -98,6 +98,27 @@ class Machine:
             self.transitions.add(h64([getattr(self, "_prev_state", 0), op_kind, outcome, sh]))
         self._prev_state = sh
 
+    def _library_exception(self, e, op):
+        """An exception that escaped from the library through a call no machine expected to fail.
+
+        Safety net: every call a property judges is wrapped where it is made; what arrives here was
+        raised *inside curies* (innermost traceback frame under the source tree being checked) by a call
+        that always succeeds on a correct tree.  It is reported as a violation with a replay rather than
+        allowed to kill the worker; an exception raised in harness code is re-raised as it is.
+        """
+        from .env import HarnessError, REPO_SRC
+        import traceback
+
+        if isinstance(e, (HarnessError, KeyboardInterrupt, MemoryError)):
+            return None
+        frames = traceback.extract_tb(e.__traceback__)
+        if not frames or not frames[-1].filename.startswith(REPO_SRC):
+            return None
+        where = frames[-1]
+        return Violation(self.PROP, "unexpected_library_exception", str(op.get("op", "?")),
+                         {"exception": type(e).__name__, "message": str(e)[:200],
+                          "raised_at": f"{where.filename[len(REPO_SRC):]}:{where.lineno} in {where.name}", "op": op})
+
     def log(self, value):
         self._log.update(
             json.dumps(value, sort_keys=True, ensure_ascii=True, separators=(",", ":")).encode()
@@ -111,14 +132,19 @@ class Machine:
         self.steps += 1
         try:
             outcome = self.apply(op)
-        except Violation as v:
+        except Exception as e:  # noqa: BLE001
+            v = e if isinstance(e, Violation) else self._library_exception(e, op)
+            if v is None:
+                raise            # raised by the harness itself: a harness error, never a violation
             if v.signature in self.known:
                 self.known_hits.append(v.signature)
                 self.log(["known", v.signature])
                 self.recover(op)
                 return {"known": v.signature}
             self.log(["violation", v.signature])
-            raise
+            if v is e:
+                raise
+            raise v from e
         self.log([op, outcome])
         return outcome
 
